@@ -61,6 +61,10 @@ class EltoritoBootInfoTable:
         """
         if self._initialized:
             raise pycdlibexception.PyCdlibInternalError('This Eltorito Boot Info Table is already initialized')
+        if len(datastr) < self.header_length():
+            # A boot file this short cannot hold a boot info table.
+            return False
+
         # http://xpt.sourceforge.net/techdocs/media/cd/cd09-BootableCDs/
         # suggests that this is all little-endian, so we'll take its
         # word for it for now.
